@@ -113,11 +113,15 @@ def kernel_np(cov, A, B):
     return np.asarray(cov(np.asarray(A, float), np.asarray(B, float)), float)
 
 
-def gen_stationary_tree(rng, d, ls, composite=True):
-    """A PSD kernel tree with length scale ~ls (leaf, or a small PSD-preserving composition)."""
+def gen_stationary_tree(rng, d, ls, composite=True, linear_p=0.12):
+    """A PSD kernel tree with length scale ~ls (leaf, or a small PSD-preserving composition).  With probability
+    `linear_p` the tree contains the (non-stationary) Linear kernel, so that prior variances differ between points."""
     k = STATIONARY[rng.integers(len(STATIONARY))]
     leaf = lambda kk, l: (("RQ", loguniform(rng, 0.5, 5.0), l, ("AN",)) if kk == "RQ" else (kk, l, ("AN",)))
     t = leaf(k, ls)
+    if linear_p and rng.random() < linear_p:
+        lin = ("LIN", loguniform(rng, 1.0, 10.0), ("AN",))
+        return ("ADD", t, lin, ("AN",)) if rng.random() < 0.7 else ("ADD", ("MULC", t, 0.3, ("AN",)), lin, ("AN",))
     if composite and rng.random() < 0.35:
         k2 = STATIONARY[rng.integers(len(STATIONARY))]
         r = rng.random()
